@@ -20,6 +20,22 @@ def run(ctx):
              "run C in another worker process with a different random history; A, B, C compared bit-for-bit on every position, cost, fitness and rate; a case = one triple; non-trivial = the runs return results with ≥ 2 generations")
     js = jobs.make_jobs(rng, optimizers.names(), ["cont-sym", "cont", "cont-zero", "mixed", "perm", "disc"], n, modes=("serial",), max_cycles_choices=(1, 2, 3, 4), trace_events=False)
     js += jobs.param_sweep_jobs(rng, optimizers.names(), kinds=("cont-sym", "cont"), max_cycles=2)
+    # integer parameters just above the population size (counts of auxiliary individuals — countries, archive slots — that leave some group almost empty:
+    # where groups collapse and are merged or dropped, and the order of what is left matters)
+    for name in optimizers.names():
+        cname, d = optimizers.CFGS[name]
+        ps = d.get("population_size")
+        for k, v in d.items():
+            if k in optimizers.BASE_KEYS or isinstance(v, bool) or not isinstance(v, int) or not isinstance(ps, int) or v <= ps:
+                continue
+            for x in (ps + 1, ps + 4, ps + ps // 2):
+                try:
+                    optimizers.config_for(name, **{k: x})
+                except Exception:  # noqa — not an accepted configuration
+                    continue
+                kind = rng.choice(["cont-sym", "cont"])
+                js.append({"name": name, "kind": kind + "+param-near-population", "specs": trace.task_specs(rng, kind, 3), "objective": rng.choice(["sphere", "rastrigin"]), "minmax": "min",
+                           "seed": 1, "cfg": {"max_cycles": 8, "fitness_error": None, k: x}, "mode": "serial", "trace": False})
     for j in js:
         j["perturb"] = rng.randrange(1, 1000)
         j["seed"] = rng.choice([0, 1, 42, 2 ** 31 - 1, rng.randrange(1, 2 ** 32 - 1)])
